@@ -24,8 +24,9 @@ public:
     Client::ICallback *_callback;
     Buffer _sendBuffer;
     bool _suspended;
+    bool _removed; // removed before it got its callback (from inside onAccepted/onConnected)
     Server::Private& _p;
-    ClientImpl(Server::Private& p) : _callback(nullptr), _suspended(false), _p(p) {}
+    ClientImpl(Server::Private& p) : _callback(nullptr), _suspended(false), _removed(false), _p(p) {}
     bool write(const byte *data, usize size, usize *postponed = 0);
     bool read(byte *buffer, usize maxSize, usize &size);
     void suspend();
@@ -202,7 +203,10 @@ void Server::Private::remove(ClientImpl &client)
   if (client._callback)
     deleteClient(client);
   else
+  {
+    client._removed = true;
     _closingClients.append(&client);
+  }
 }
 
 void Server::Private::deleteClient(ClientImpl& client)
@@ -274,7 +278,7 @@ void Server::Private::run()
       {
         ClientImpl &client = *_closingClients.front();
         _closingClients.removeFront();
-        if (client._callback)
+        if (client._callback && !client._removed)
           client._callback->onClosed();
         else
           deleteClient(client);
